@@ -62,20 +62,20 @@ type atomicFinal struct {
 }
 
 type atomicObs struct {
-	ID      int             `json:"id"`
-	Recv    string          `json:"recv"`
-	Mode    string          `json:"mode"`
-	Kinds   []string        `json:"kinds"`
-	NToks   []int           `json:"ntoks"`
-	Events  []atomicEvent   `json:"events"`
-	Final   atomicFinal     `json:"final"`
-	Bytes   int64           `json:"bytes"` // bytes the reference sender wrote after the handshake
-	UpBytes int64           `json:"upbytes"`
-	Weak    bool            `json:"weak"` // judge atomicity only (the session may legitimately fail at the long name)
+	ID      int           `json:"id"`
+	Recv    string        `json:"recv"`
+	Mode    string        `json:"mode"`
+	Kinds   []string      `json:"kinds"`
+	NToks   []int         `json:"ntoks"`
+	Events  []atomicEvent `json:"events"`
+	Final   atomicFinal   `json:"final"`
+	Bytes   int64         `json:"bytes"` // bytes the reference sender wrote after the handshake
+	UpBytes int64         `json:"upbytes"`
+	Weak    bool          `json:"weak"` // judge atomicity only (the session may legitimately fail at the long name)
 	// Unlinked: listed paths that had previous content and were seen DELETED or MOVED AWAY by inotify during the
 	// session (an atomic replacement is a rename OVER the path: the watcher sees moved_to for it, never delete)
-	Unlinked []string `json:"unlinked"`
-	Scn     json.RawMessage `json:"scn"`
+	Unlinked []string        `json:"unlinked"`
+	Scn      json.RawMessage `json:"scn"`
 }
 
 func init() { handlers["atomic"] = atomicHandler }
